@@ -17,6 +17,13 @@ WIDE_TYPES = ("u32", "i32", "u64", "i64", "ull", "ll", "mixed")
 # the limb arithmetic of WideIM recurses once per bit of a 64-bit value: TLC's interpreter needs a deeper stack
 JENV = {"JAVA_TOOL_OPTIONS": "-Xss64m"}
 CXXFLAGS = ["-pthread", "-fno-optimize-sibling-calls"]
+# sanitizer builds (VERIF_SANITIZE, property C02): a report must end in abort() so that the driver can turn it into a
+# crash event; leak checking is not this module's business (nothing here allocates on behalf of etl)
+SAN_ENV = {"ASAN_OPTIONS": "abort_on_error=1:detect_leaks=0:handle_abort=0", "UBSAN_OPTIONS": "abort_on_error=1:print_stacktrace=0"}
+
+
+def _run_env():
+    return dict(SAN_ENV) if os.environ.get("VERIF_SANITIZE") else {}
 
 
 def _split(paths, n, outprefix):
@@ -70,11 +77,11 @@ def model(tier):
                        constants=consts, timeout=3000, env=JENV)
 
 
-def build_drivers():
-    jobs = [dict(src="intmath_driver.cpp", out="intmath_etl", std="c++23", flags=CXXFLAGS),
-            dict(src="intmath_driver.cpp", out="intmath_std", std="c++23", flags=CXXFLAGS + ["-DVH_STD"], include_repo=False)]
-    p = vlib.build_many(jobs)
-    return {"etl": p[0], "std": p[1]}
+def build_drivers(impls=("etl", "std")):
+    jobs = {"etl": dict(src="intmath_driver.cpp", out="intmath_etl", std="c++23", flags=CXXFLAGS),
+            "std": dict(src="intmath_driver.cpp", out="intmath_std", std="c++23", flags=CXXFLAGS + ["-DVH_STD"], include_repo=False)}
+    p = vlib.build_many([jobs[i] for i in impls])
+    return dict(zip(impls, p))
 
 
 def run_sweeps(tier, bins, impl):
@@ -84,9 +91,9 @@ def run_sweeps(tier, bins, impl):
     nparts = 2 if tier == "quick" else 8
     for part in range(nparts):
         t16.append(([bins[impl], "sweep16", tier, str(part), str(nparts)],
-                    os.path.join(d, "intmath_%s_%s_s16_%d.ndjson" % (impl, tier, part))))
+                    os.path.join(d, "intmath_%s_%s_s16_%d.ndjson" % (impl, tier, part)), {"env": _run_env()}))
     for t in WIDE_TYPES:
-        tw.append(([bins[impl], "wide", tier, t], os.path.join(d, "intmath_%s_%s_wide_%s.ndjson" % (impl, tier, t))))
+        tw.append(([bins[impl], "wide", tier, t], os.path.join(d, "intmath_%s_%s_wide_%s.ndjson" % (impl, tier, t)), {"env": _run_env()}))
     res = vlib.run_parallel(t16 + tw, par=6)
     return [t[1] for t in t16], [t[1] for t in tw], [e for _, e in res]
 
@@ -109,7 +116,7 @@ def pipeline(tier, rep, calibrate=True):
     impls = ("etl", "std") if calibrate else ("etl",)
     with ThreadPoolExecutor(max_workers=1) as ex:
         fmc = ex.submit(model, tier)
-        bins = build_drivers()
+        bins = build_drivers(impls)
         # the sweeps do not depend on the model run: execute and validate them while TLC explores
         tv_sw = {}
         traps = {}
@@ -138,7 +145,7 @@ def pipeline(tier, rep, calibrate=True):
     tv_rp = {}
     for impl in impls:
         tp = os.path.join(d, "intmath_%s_%s_replay8.ndjson" % (impl, tier))
-        _, err = vlib.run([bins[impl], "replay8", genfile], tp)
+        _, err = vlib.run([bins[impl], "replay8", genfile], tp, env=_run_env())
         traps[impl] += _traps([err])
         chunks = _split([tp], 8 if tier == "quick" else 12, os.path.join(d, "intmath_%s_%s_c8" % (impl, tier)))
         tv_rp[impl] = _tv(chunks, "intmath_tv_rp_%s_%s" % (impl, tier), 12)
